@@ -326,6 +326,12 @@ func c15EventConfigs(s TreeSpec, kind syncx.Kind) [][]PlacedEvent {
 		// two events in one block
 		{P("trunk", trunkAfter1, ok(1, 0)), P("trunk", trunkAfter1, ok(2, 0)), P("A", a1, ok(1, 1))},
 	}
+	if start > 1 {
+		// an event BEFORE the configured start block (informational: the statement
+		// speaks about events "from the sync start"; a rollback that reaches below
+		// the start block re-syncs from there)
+		cfgs = append(cfgs, []PlacedEvent{P("trunk", start-1, ok(1, 0)), P("trunk", trunkAfter1, ok(2, 0)), P("A", a1, ok(3, 0))})
+	}
 	if trunkAfter2 != trunkAfter1 {
 		cfgs = append(cfgs, []PlacedEvent{P("trunk", trunkAfter2, ok(1, 0)), P("A", a1, ok(1, 1)), P("B", b1, ok(3, 0))})
 	}
